@@ -177,14 +177,16 @@ def eval_pure(F, name, argvals, depth=0):
     if g is None or depth > 3 or len(g.blocks) > 80 or not all(isinstance(a, tuple) and a[0] in ('int', 'enum') for a in argvals):
         return None
     env = {'_%d' % (i + 1): a for i, a in enumerate(argvals)}
-    ps = AbsInt(F, g, env, max_paths=8, decide_call=lambda n, a, t_: char_pred(n, a) or eval_pure(F, n, a, depth + 1)).run()
+    ps = AbsInt(F, g, env, max_paths=8, decide_call=lambda n, a, t_: char_pred(n, a, t_) or eval_pure(F, n, a, depth + 1)).run()
     rets = [p.env.get('_0') for p in ps if p.exit == 'return']
     if len(ps) == 1 and len(rets) == 1 and rets[0] and rets[0][0] in ('int', 'enum'):
         return rets[0]
     return None
 
 
-def char_pred(name, argvals):
+def char_pred(name, argvals, t=None):
+    if t is not None and t.get('argvals_deref'):
+        argvals = t['argvals_deref']
     if name.startswith('core::char::methods::<impl char>::') and argvals:
         a = argvals[0]
         while isinstance(a, tuple) and a[0] in ('cast',):
@@ -198,6 +200,109 @@ def char_pred(name, argvals):
     return None
 
 
+UNKNOWN_CHAR = object()
+
+
+class LexModel:
+    """the Tokenizer's view of an input whose first characters are known constants: `chars` (a list of characters; a final
+    None = end of input right there, otherwise what follows is unknown).  Used as the call-deciding callback of AbsInt when
+    the MIR of Tokenizer::next is constant-propagated: bump / peek / is_eof, the rest-of-input slice `input[offset()..]`
+    and starts_with on it.  After a skip_while (unknown number of characters) the input is treated as ended."""
+
+    def __init__(self, F, chars):
+        self.F = F
+        self.known = [c for c in chars if c is not None]
+        self.ended = bool(chars) and chars[-1] is None
+        self.pos = 0
+        self.bumps = 0
+        self.closures = []
+
+    @staticmethod
+    def some(c):
+        return ('agg', 'core::option::Option', 'Some', (('int', ord(c), 'char'),))
+
+    NONE = ('agg', 'core::option::Option', 'None', ())
+
+    def at(self, k):
+        """'c' | None (end) | UNKNOWN_CHAR at absolute position k"""
+        if self.pos is None:
+            return None
+        if k < len(self.known):
+            return self.known[k]
+        return None if self.ended else UNKNOWN_CHAR
+
+    def decide(self, name, argvals, t_):
+        T = TOK
+        if name == T + 'bump':
+            self.bumps += 1
+            c = self.at(self.pos) if self.pos is not None else None
+            if self.pos is not None:
+                self.pos += 1
+            if c is UNKNOWN_CHAR:
+                return None
+            return self.some(c) if c is not None else self.NONE
+        if name == T + 'peek':
+            c = self.at(self.pos) if self.pos is not None else None
+            if c is UNKNOWN_CHAR:
+                return None
+            return self.some(c) if c is not None else self.NONE
+        if name == T + 'is_eof':
+            c = self.at(self.pos) if self.pos is not None else None
+            if c is UNKNOWN_CHAR:
+                return None
+            return ('int', int(c is None), 'bool')
+        if name == T + 'skip_while':
+            for a in argvals:
+                if isinstance(a, tuple) and a[0] == 'closure':
+                    self.closures.append(a[1])
+            self.pos = None          # unknown number of characters consumed: treat the input as ended
+            return None
+        if name.endswith('::index') and 'Index<' in name and 'str' in name and len(argvals) == 2 and 'RangeFrom' in str(argvals[1])[:80] and 'offset' in str(argvals[1]):
+            return ('rest', self.pos)
+        if name.endswith('::starts_with') and len(argvals) == 2:
+            ad = (t_ or {}).get('argvals_deref') or argvals
+            r = ad[0]
+            for _ in range(3):
+                if isinstance(r, tuple) and r and r[0] in ('cast', 'deref'):
+                    r = r[1]
+            if isinstance(r, tuple) and r and r[0] == 'rest':
+                pat = ad[1]
+                p0 = r[1]
+                if p0 is None:
+                    return ('int', 0, 'bool')
+                if pat[0] == 'str':
+                    for i, ch in enumerate(pat[1]):
+                        have = self.known[p0 + i] if p0 + i < len(self.known) else (None if self.ended else UNKNOWN_CHAR)
+                        if have is UNKNOWN_CHAR:
+                            return None
+                        if have != ch:
+                            return ('int', 0, 'bool')
+                    return ('int', 1, 'bool')
+                if pat[0] == 'fn':
+                    have = self.known[p0] if p0 < len(self.known) else (None if self.ended else UNKNOWN_CHAR)
+                    if have is UNKNOWN_CHAR:
+                        return None
+                    if have is None:
+                        return ('int', 0, 'bool')
+                    return eval_pure(self.F, pat[1], [('int', ord(have), 'char')])
+            return None
+        r_ = char_pred(name, argvals, t_)
+        if r_ is not None:
+            return r_
+        if name in self.F.fns and name != LEXNEXT and not name.startswith(T):
+            return eval_pure(self.F, name, argvals)
+        return None
+
+
+def lex_run(F, chars, max_paths=64):
+    """(paths, model) of Tokenizer::next on an input starting with `chars`"""
+    m = LexModel(F, chars)
+    fn = F.fn(LEXNEXT)
+    ai = AbsInt(F, fn, {}, decide_call=m.decide, max_paths=max_paths)
+    ps = ai.run()
+    return fn, ps, m, ai.truncated
+
+
 def lexer_outcomes(ctx):
     """what Tokenizer::next does on an input that starts with c1 followed by c2 (or by nothing), for a grid of characters:
     {(c1, c2): (token | '<skip>' | '<eof>' | '<?>', number of bump() calls, callees)} — the MIR of next() with the first two
@@ -209,31 +314,9 @@ def lexer_outcomes(ctx):
         c2s = [None, '=', '&', '|', '/', '!', '<', '>', 'a', '0', ' ', '"', '.', '*', '-', '+']
         out = {}
 
-        def some_char(c):
-            return ('agg', 'core::option::Option', 'Some', (('int', ord(c), 'char'),))
         for c1 in c1s:
             for c2 in c2s:
-                state = {'bumps': 0}
-
-                def decide(name, argvals, t_, c1=c1, c2=c2, state=state):
-                    if name == TOK + 'bump':
-                        state['bumps'] += 1
-                        if state['bumps'] == 1:
-                            return some_char(c1)
-                        if state['bumps'] == 2:
-                            return some_char(c2) if c2 is not None else ('agg', 'core::option::Option', 'None', ())
-                        return None
-                    if name == TOK + 'peek':
-                        if state['bumps'] == 1:
-                            return some_char(c2) if c2 is not None else ('agg', 'core::option::Option', 'None', ())
-                        return None
-                    r = char_pred(name, argvals)
-                    if r is not None:
-                        return r
-                    if name in F.fns and name != LEXNEXT and not name.startswith(TOK):
-                        return eval_pure(F, name, argvals)
-                    return None
-                ps = AbsInt(F, fn, {}, decide_call=decide, max_paths=64).run()
+                _, ps, model, trunc = lex_run(F, [c1, c2])
                 res = set()
                 for p in ps:
                     nb = sum(1 for c in p.calls if c[1] == TOK + 'bump')
@@ -252,6 +335,8 @@ def lexer_outcomes(ctx):
                         elif (r[0] == 'agg' and r[2] == 'None') or (r[0] == 'enum' and r[2] == 'None') or (r[0] == 'call' and 'from_residual' in r[1]):
                             tokn = '<eof>'
                     res.add((tokn, nb, callees))
+                if trunc:
+                    res.add(('<?>', -1, ()))
                 out[(c1, c2)] = sorted(res)
         return out
     return _memo(ctx, 'lexer_outcomes', build)
@@ -273,6 +358,8 @@ def lexer_table(ctx):
         for c1 in c1s:
             alone = o[(c1, None)]
             t1 = alone[0][0] if len(alone) == 1 else None
+            if t1 in ('<skip>', '<eof>'):
+                continue        # a character the lexer drops (whitespace): it starts no lexeme
             if t1 in unit and t1 != 'Illegal' and alone[0][1] == 1:
                 table[c1] = t1
             for c2 in c2s:
